@@ -4,7 +4,10 @@
 package main
 
 import (
+	"bytes"
 	"fmt"
+	"io"
+	"net/http"
 	"sort"
 	"strconv"
 	"strings"
@@ -12,7 +15,6 @@ import (
 	"time"
 
 	vegeta "github.com/tsenart/vegeta/v12/lib"
-	"vharness/attackctl"
 	"vharness/kit"
 	"vharness/run"
 )
@@ -26,6 +28,52 @@ type caseC05 struct {
 	Max     uint64 `json:"max"`
 	Hits    uint64 `json:"hits"`
 	Spin    int    `json:"spin"`
+	// failure mix: every FailEvery-th hit fails inside the transport (0 = never) in the given way
+	FailEvery uint64 `json:"fail_every"`
+	FailKind  string `json:"fail_kind"`  // "error" | "timeout_error" | "client_timeout"
+	TimeoutNs int64  `json:"timeout_ns"` // http.Client.Timeout (0 = none)
+}
+
+// timeoutErr is a transport error whose Timeout() is true (dial / TLS / header timeouts look like this).
+type timeoutErr struct{}
+
+func (timeoutErr) Error() string   { return "verif: i/o timeout" }
+func (timeoutErr) Timeout() bool   { return true }
+func (timeoutErr) Temporary() bool { return true }
+
+type failRT struct {
+	cs  *caseC05
+	rec func(seq uint64, entry, exit time.Time)
+}
+
+func (t failRT) RoundTrip(req *http.Request) (*http.Response, error) {
+	seq, _ := strconv.ParseUint(req.Header.Get("X-Vegeta-Seq"), 10, 64)
+	entry := time.Now()
+	var err error
+	if t.cs.FailEvery > 0 && seq%t.cs.FailEvery == 0 {
+		switch t.cs.FailKind {
+		case "error":
+			time.Sleep(time.Duration(200+seq%7*100) * time.Microsecond)
+			err = fmt.Errorf("verif: connection reset")
+		case "timeout_error":
+			time.Sleep(time.Duration(300+seq%5*200) * time.Microsecond)
+			err = timeoutErr{}
+		case "client_timeout":
+			<-req.Context().Done() // the client's overall timeout fires
+			err = req.Context().Err()
+		}
+	} else {
+		for k := 0; k < t.cs.Spin*100; k++ {
+			_ = k * k
+		}
+	}
+	exit := time.Now()
+	t.rec(seq, entry, exit)
+	if err != nil {
+		return nil, err
+	}
+	return &http.Response{StatusCode: 200, Status: "200 OK", Proto: "HTTP/1.1", ProtoMajor: 1, ProtoMinor: 1,
+		Header: http.Header{}, Body: io.NopCloser(bytes.NewReader(nil)), Request: req}, nil
 }
 
 type limitPacer struct{ n uint64 }
@@ -45,19 +93,27 @@ func runC05(c *run.Ctx, s *kit.Summary) {
 		if r.Chance(0.3) {
 			cs.Max = cs.Workers + uint64(r.Pick(64))
 		}
+		if r.Chance(0.5) {
+			cs.FailEvery = uint64(2 + r.Pick(9))
+			cs.FailKind = r.PickStr([]string{"error", "timeout_error", "client_timeout"})
+			if cs.FailKind == "client_timeout" {
+				cs.TimeoutNs = r.Range(1, 4) * 1000000
+				cs.Hits = uint64(200 + r.Pick(400)) // each failing hit costs a timeout
+			} else if r.Chance(0.5) {
+				cs.TimeoutNs = 50000000
+			}
+		}
 		var mu sync.Mutex
 		obs := map[uint64]*hitObs{}
-		client := attackctl.NewFakeClient(func(seq uint64) {
-			h := &hitObs{entry: time.Now()}
-			for k := 0; k < cs.Spin*100; k++ {
-				_ = k * k
-			}
-			h.exit = time.Now()
+		client := &http.Client{Transport: failRT{&cs, func(seq uint64, entry, exit time.Time) {
 			mu.Lock()
-			obs[seq] = h
+			obs[seq] = &hitObs{entry, exit}
 			mu.Unlock()
-		})
-		atk := vegeta.NewAttacker(vegeta.Workers(cs.Workers), vegeta.MaxWorkers(cs.Max), vegeta.Client(client))
+		}}}
+		// vegeta.Timeout after vegeta.Client sets the overall timeout of the supplied client
+		atk := vegeta.NewAttacker(vegeta.Workers(cs.Workers), vegeta.MaxWorkers(cs.Max), vegeta.Client(client),
+			vegeta.Timeout(time.Duration(cs.TimeoutNs)))
+		s.Count("fail_kind=" + cs.FailKind)
 		tr := vegeta.NewStaticTargeter(vegeta.Target{Method: "GET", URL: "http://verif.invalid/"})
 		t0 := time.Now()
 		var results []*vegeta.Result
